@@ -21,6 +21,22 @@ for d in sorted(glob.glob(root+'/contracts/*'))+[root+'/common']:
         for n in names:
             s=re.sub(r'(?<![A-Za-z0-9_"])'+n+r'(?![A-Za-z0-9_"])', n+'Zz', s)
         open(f,'w').write(s)
+# the deployment package too (its tests refer to unexported names, so test files are renamed as well)
+d=root+'/deploy'
+files=glob.glob(d+'/*.go')
+allsrc=''.join(open(f).read() for f in files)
+names=set()
+for f in files:
+    if f.endswith('_test.go'): continue
+    for m in re.finditer(r'^func (?:\([^)]*\) )?([a-z][A-Za-z0-9_]*)\(', open(f).read(), re.M):
+        n=m.group(1)
+        if n in('init','main') or re.search(r'\b'+n+r'\.[A-Z]', allsrc): continue
+        names.add(n)
+for f in files:
+    s=open(f).read()
+    for n in names:
+        s=re.sub(r'(?<![A-Za-z0-9_"])'+n+r'(?![A-Za-z0-9_"])', n+'Zz', s)
+    open(f,'w').write(s)
 PY
 go build ./... || { git checkout -- .; echo "renamed tree does not build"; exit 2; }
 /verif/bin/c15check -regen all >/dev/null 2>&1
